@@ -65,7 +65,8 @@ def static_part(ctx):
 def snap(v):
     import pandas as pd
     if isinstance(v, np.ndarray):
-        return ("nd", v.shape, v.dtype.str, v.tobytes())
+        # metadata is part of the caller's array too: an in-place reshape / re-stride / byte-swap writes no element
+        return ("nd", v.shape, v.strides, v.dtype.str, bool(v.flags.writeable), v.tobytes())
     if isinstance(v, pd.DataFrame):
         return ("df", v.shape, tuple(v.columns), v.to_numpy(copy=True).tobytes(), tuple(v.index))
     if isinstance(v, (list, tuple)):
@@ -236,6 +237,14 @@ def dynamic_part(ctx):
         for bk in models.BASIS_KINDS:
             mc = SSPOC(basis=models.make_basis(bk, None if bk == "identity" else 3), n_sensors=3)
             S.call(f"SSPOC[{bk}].fit(x, y)", lambda: ((Xc.copy(), yc.copy()), {}), lambda x, y: mc.fit(x, y, quiet=True))
+            # labels and data as other code holds them: column / row vectors (files from MATLAB / HDF5), integer and float labels,
+            # column-major data – accepted or rejected, the caller's objects stay as they were (values AND shape / strides)
+            for yn, ymk in (("column", lambda: yc.copy().reshape(-1, 1)), ("row", lambda: yc.copy().reshape(1, -1)),
+                            ("float", lambda: yc.astype(float)), ("list", lambda: yc.tolist()),
+                            ("column F", lambda: np.asfortranarray(yc.copy().reshape(-1, 1)))):
+                mcy = SSPOC(basis=models.make_basis(bk, None if bk == "identity" else 3), n_sensors=3)
+                S.call(f"SSPOC[{bk}].fit(x, y {yn})", lambda ymk=ymk: ((np.asfortranarray(Xc.copy()), ymk()), {}),
+                       lambda x, y, mcy=mcy: mcy.fit(x, y, quiet=True))
             if not hasattr(mc, "sensor_coef_"):
                 continue
             S.call(f"SSPOC[{bk}].predict", lambda: ((Xc[:, mc.selected_sensors].copy(),), {}), lambda x: mc.predict(x))
